@@ -117,6 +117,26 @@ pub fn run_discover(a: &Args) {
                 let service = name_text(&ann["service"]);
                 let bytes = match ann["kind"].as_str().unwrap() {
                     "instance" => announcement_packet(&service, &ann["inst"], 120)?,
+                    "instance+foreign" => {
+                        // a third-party encoder: the peer's records in the answer section, records of foreign
+                        // names in the additional section of the same packet
+                        let own = announcement_packet(&service, &ann["inst"], 120)?;
+                        let mut p = Packet::parse(&own).map_err(|e| e.to_string())?.into_reply();
+                        let src = Packet::parse(&own).map_err(|e| e.to_string())?;
+                        for r in src.answers.iter().chain(src.additional_records.iter()) {
+                            if !p.answers.contains(r) {
+                                p.answers.push(r.clone());
+                            }
+                        }
+                        let foreign_host = Name::new_unchecked("host9.local").into_owned();
+                        p.additional_records.push(ResourceRecord::new(foreign_host.clone(), CLASS::IN, 120, RData::A(A { address: 0x0a080808 })));
+                        let other_inst = Name::new_unchecked("zz._svc2._tcp.local").into_owned();
+                        p.additional_records.push(simple_mdns::conversion_utils::port_to_srv_record(&other_inst, 4444, 120));
+                        p.additional_records.push(ResourceRecord::new(other_inst, CLASS::IN, 120, RData::A(A { address: 0x0a090909 })));
+                        p.additional_records.push(ResourceRecord::new(Name::new(&service).map_err(|e| e.to_string())?.into_owned(), CLASS::IN, 120,
+                            RData::TXT(simple_dns::rdata::TXT::new().with_string("leak=1").map_err(|e| e.to_string())?.into_owned())));
+                        p.build_bytes_vec_compressed().map_err(|e| e.to_string())?
+                    }
                     "service-ptr" => {
                         let mut p = Packet::new_reply(1);
                         let target = Name::new(&format!("{}.{}", text(&ann["inst"]["name"]), service)).map_err(|e| e.to_string())?.into_owned();
